@@ -13,7 +13,7 @@ def analyse(ctx, res, goals, meta, want_pairs=False):
     viol = 0
     def violate(key, obj):
         nonlocal viol
-        if viol < 3:
+        if len(ctx.violations) < 3:
             viol += 1
             ctx.violation(key, obj, True)
     for kind, log in res["errors"]:
@@ -101,7 +101,7 @@ def check(ctx, replay=None):
     import c01_extra
     nextra = c01_extra.run(ctx)
     fails = run_shards(PROP, HEADER, goals) if goals else []
-    if fails and viol == 0:
+    if fails and not ctx.violations:
         for f in fails[:3]:
             ctx.violation(f"corr:{meta[f][0]}", {"item": meta[f][1], "broken": "correspondence goal " + goals[f][:500] +
                           " : the generated C declaration / layout is not the one Abi/Model.v derives; the value-transport run found no corrupted value"}, False)
